@@ -34,10 +34,17 @@ structure SuperQuirks where
   transitive (`"\-"` = `'-'` = `"-"` but `"\-"` ≠ `"-"`), and attribute selectors inherit
   it.  Off = the unquoted texts are compared in every case. -/
   attrQuoteMix : Bool := false
+  /-- selector.rs `is_superselector`, `RelKind::Parent` arm: only a `sub` whose *nearest*
+  relation is `>` is accepted, so `p > x` is not a superselector of `p > y ~ x` / `p > y + x`
+  (the ancestor arm does look through sibling combinators: "the siblings parent is our
+  parent").  Preorder and monotonicity (C23) hold either way; `selector.unify` produces such
+  selectors, which breaks its soundness law (C24).  Off = sibling / adjacent links are walked
+  through before the `>` link is required. -/
+  parentStrict : Bool := false
   deriving DecidableEq, Repr
 
 def superSpec : SuperQuirks := {}
-def superAsis : SuperQuirks := { attrQuoteMix := true }
+def superAsis : SuperQuirks := { attrQuoteMix := true, parentStrict := true }
 
 /-! ### css/string.rs -/
 
@@ -166,25 +173,32 @@ def walkSib (f : Selector → Bool) : Selector → Bool
     | .sibling | .adjacent => f ss || walkSib f ss
     | _ => false
 
+/-- selector.rs `is_superselector`, `RelKind::Parent` arm: `sub`'s relation must be `>`;
+with `through` sibling / adjacent links are walked through first. -/
+def walkPar (through : Bool) (f : Selector → Bool) : Selector → Bool
+  | .leaf _ => false
+  | .rel .parent ss _ => f ss
+  | .rel .sibling ss _ => through && walkPar through f ss
+  | .rel .adjacent ss _ => through && walkPar through f ss
+  | .rel .ancestor _ _ => false
+
 /-- selector.rs `Selector::is_superselector`, over the relation `C` used on compounds
-(`is_local_superselector`) -/
-def Selector.isSuperC (C : Compound → Compound → Bool) : Selector → Selector → Bool
+(`is_local_superselector`); `through` = the parent arm looks through sibling combinators -/
+def Selector.isSuperC (through : Bool) (C : Compound → Compound → Bool) : Selector → Selector → Bool
   | .leaf c, sub => C c sub.compound
   | .rel k s c, sub =>
     C c sub.compound &&
     match k with
-    | .ancestor => walkAnc (Selector.isSuperC C s) sub
-    | .parent => (match sub with
-        | .rel .parent ss _ => Selector.isSuperC C s ss
-        | _ => false)
-    | .sibling => walkSib (Selector.isSuperC C s) sub
+    | .ancestor => walkAnc (Selector.isSuperC through C s) sub
+    | .parent => walkPar through (Selector.isSuperC through C s) sub
+    | .sibling => walkSib (Selector.isSuperC through C s) sub
     | .adjacent => (match sub with
-        | .rel .adjacent ss _ => Selector.isSuperC C s ss
+        | .rel .adjacent ss _ => Selector.isSuperC through C s ss
         | _ => false)
 
 /-- selector.rs `Selector::is_superselector` -/
 def Selector.isSuperW (q : SuperQuirks) (R : SelSet → SelSet → Bool) : Selector → Selector → Bool :=
-  Selector.isSuperC (Compound.isSuperW q R)
+  Selector.isSuperC (!q.parentStrict) (Compound.isSuperW q R)
 
 /-- selectorset.rs `SelectorSet::is_superselector` over a given selector-level relation -/
 def setSuperW (S : Selector → Selector → Bool) (A B : SelSet) : Bool :=
